@@ -29,7 +29,7 @@ import (
 )
 
 var (
-	eraPast   = time.Date(2001, 3, 4, 5, 6, 7, 0, time.UTC)  // before any wall clock this can run under
+	eraPast   = time.Date(2001, 3, 4, 5, 6, 7, 0, time.UTC) // before any wall clock this can run under
 	eraFuture = time.Date(2101, 3, 4, 5, 6, 7, 0, time.UTC) // after it
 
 	eraPastOnly = []time.Time{eraPast}
@@ -45,8 +45,8 @@ type knobs struct {
 	pEvidence, pBurn, pReward                        int // percent of blocks
 	pVictimAbsent                                    int // percent, per block, for a victim in the consensus set
 	params                                           []string
-	dispatch                                         bool // query sessions (HandleDispatch) after every commit
-	bigSlash                                         bool // draw large slash fractions / a high minimum stake
+	dispatch                                         bool    // query sessions (HandleDispatch) after every commit
+	bigSlash                                         bool    // draw large slash fractions / a high minimum stake
 	slashDT, slashDS                                 []int   // percent choices (nil: defaults of bigSlash)
 	stakeMins                                        []int64 // minimum stake choices (nil: defaults of bigSlash)
 	burns                                            []int64 // challenge counts of injected burns (nil: default list)
@@ -689,13 +689,9 @@ func extract(st *stepRec) *events {
 // histFlags accumulates what happened in a history (for labels).
 type histFlags struct {
 	slash, downtimeJail, unjail, completion, bump, forceWait, belowMin, leftStaked, newStake, evidenceSlash, burnSlash int
-	touched                                                                                                           map[string]int // per node: number of earlier slash/jail/edit events
 }
 
 func (f *histFlags) add(st *stepRec, e *events) {
-	if f.touched == nil {
-		f.touched = map[string]int{}
-	}
 	f.slash += len(e.slashed)
 	f.downtimeJail += len(e.downtimeJail)
 	f.unjail += len(e.unjailed)
